@@ -409,6 +409,13 @@ class Types:
                 return ("libref", fq)
             if e.id in ("True", "False"):
                 return BOOL
+            src = getattr(e, "_src", None)
+            if src is not None and src[0].module is not mod and isinstance(src[1], ast.Name) and src[1].id == e.id:
+                # a name copied from another module by the inlined view: resolve it where it was written
+                om = src[0].module
+                if e.id in om.functions or e.id in om.classes or e.id in om.imports or e.id in om.constants:
+                    probe = FuncInfo(name="<probe>", qualname="<probe>", node=ast.Lambda(args=ast.arguments(posonlyargs=[], args=[], kwonlyargs=[], kw_defaults=[], defaults=[]), body=ast.Constant(value=None)), module=om)
+                    return self.expr(probe, ast.Name(id=e.id, ctx=ast.Load()), depth + 1)
             return UNKNOWN
         if isinstance(e, ast.Attribute):
             bt = self.expr(fi, e.value, depth + 1)
